@@ -4,6 +4,7 @@ from .. import engine as E
 
 
 def check(rep, model, tier):
+    _doc_defaults(rep, model)
     rep.rule('SCHEMA', 'check_min_burst_cycles has the normal form of the run-filter schema: transitions = flatnonzero(diff with falsy pads on '
                        'both sides); runs [on, off) from even/odd transitions; exactly the runs with off-on < min_n_cycles (strict) are cleared '
                        'by storing the constant False to [on:off]; nothing else is stored; the same array is returned; empty input returned unchanged')
@@ -32,3 +33,8 @@ def check(rep, model, tier):
     else:
         rep.violation('TYPE-GUARD', 'list argument', site, expected='unconditional ValueError', found=f'result {T.brief(res2) if res2 else None}, raises {[(r[0], T.brief(r[1], 40)) for r in ctx2.raises]}')
     rep.floor('schema obligations', len(rep.instances), 3)
+
+
+def _doc_defaults(rep, model):
+    from . import common as _c
+    _c.doc_defaults(rep, model, ['check_min_burst_cycles'])
